@@ -34,7 +34,8 @@ def scenario(recs, kind, seed, ipv, opts=()):
     cd["cuts"] = {d: sorted(v) for d, v in cuts.items()}
     # every third capture also holds what real captures hold besides the connection (wire/zoo.py: ARP, ICMP, fragments, VLAN tags,
     # control segments, other transports, runts and truncated frames)
-    return dict(conns=[cd], opts=list(opts), duplex=(seed if seed % 2 else 0), zoo=(seed if seed % 3 == 0 else 0))
+    # every fifth run finds a longer file of an earlier export at its output path
+    return dict(conns=[cd], opts=list(opts), duplex=(seed if seed % 2 else 0), zoo=(seed if seed % 3 == 0 else 0), stale_out=(seed % 5 == 0))
 
 
 def _one(sc):
